@@ -197,16 +197,24 @@ def run_job(job, sim_dir=SIM_DIR, repo_marker=REPO, timeout_factor=10.0, cancel=
 
 
 def classify_failure(err, repo_marker=REPO):
-    """A Miri-reported failure is a *violation* only if the interpreter stopped
-    inside a random() call of the code under test: the report's backtrace has a
-    frame under <repo>/src.  Anything else (unsupported operation, build error,
-    failure in harness code) is a harness error."""
+    """A Miri-reported failure is a *violation* only if the interpreter stopped inside a random() call of the
+    code under test: the report's backtrace has a frame of the code under test (<repo>/src) AND a frame of
+    the harness function that wraps a draw (one_draw / dyn_random / static_random).  Undefined behaviour
+    inside another API call made by the workload (neighbour operations, battery) is not C19's business.
+    One more case is attributed to random(): a read of UNINITIALISED memory anywhere — the harness is safe
+    Rust and creates no uninitialised data, so such bytes can only be part of a table a draw returned.
+    Anything else (unsupported operation, build error, failure in harness code) is a harness error."""
     in_volute = (repo_marker.rstrip("/") + "/src/") in err
+    in_draw = bool(re.search(r"\b(one_draw|dyn_random|static_random)\b", err))
     m = re.search(r"error: (Undefined Behavior|deadlock|unsupported operation|abnormal termination|the evaluated program [a-z ]+|[^\n]{0,80})[^\n]*", err)
     head = m.group(0)[:300] if m else (err.strip().splitlines()[-1][:300] if err.strip() else "no diagnostics")
-    if "Undefined Behavior" in head and in_volute:
-        return "ub", head
-    if ("deadlock" in head) and in_volute:
+    if "Undefined Behavior" in head:
+        if in_volute and in_draw:
+            return "ub", head
+        if "uninitialized" in head and in_draw:
+            return "ub", head + " (uninitialised bytes in a table returned by random())"
+        return "harness", head + (" (undefined behaviour outside a random() call)" if in_volute else "")
+    if "deadlock" in head and in_volute and in_draw:
         return "deadlock", head
     return "harness", head
 
